@@ -107,7 +107,13 @@ impl<'c, 'r, C: ZCol> Visitor<C> for V<'c, 'r> {
                     return;
                 }
                 let mut c = IterTarget::<C>::new(*bx);
-                let _ = c.draw_iter(px.iter().copied());
+                // (fed with draw_iter, or with the iterator's own draw() method of PixelIteratorExt, by turns)
+                if px.len() % 2 == 0 {
+                    let _ = c.draw_iter(px.iter().copied());
+                } else {
+                    let _ = embedded_graphics::iterator::PixelIteratorExt::draw(px.iter().copied(), &mut c);
+                    ctx.count("pixel_iterators_drawn_with_their_own_draw_method", 1);
+                }
                 ctx.count("pixels_iterator_items", px.len() as u64);
                 // "feeding the pixels() iterator" in other ways than a for loop yields the same sequence
                 if bi == 0 && px.len() <= 1200 {
